@@ -271,7 +271,12 @@ pub fn gen_trainset(rng: &mut Rng) -> TrainSet {
                 s.push(',');
             }
             if rng.chance(0.06) {
-                s.push('"');
+                // a double quote at the start, in the middle or at the end of the surface
+                match rng.below(3) {
+                    0 => s.insert(0, '"'),
+                    1 => s.push('"'),
+                    _ => s = format!("{}\"{}", &s[..s.char_indices().nth(1).map(|x| x.0).unwrap_or(s.len())], &s[s.char_indices().nth(1).map(|x| x.0).unwrap_or(s.len())..]),
+                }
             }
             s
         };
@@ -319,7 +324,12 @@ pub fn gen_trainset(rng: &mut Rng) -> TrainSet {
             let len = 1 + rng.below(3);
             let mut s: String = (0..len).map(|_| chars[rng.below(chars.len())]).collect();
             if rng.chance(0.1) {
-                s.push(*rng.pick(&['"', ',', '\'']));
+                let c = *rng.pick(&['"', ',', '\'']);
+                if rng.chance(0.5) {
+                    s.insert(0, c);
+                } else {
+                    s.push(c);
+                }
             }
             let f = if rng.chance(0.5) { seed[rng.below(seed.len())].1.clone() } else { gen_cells(rng, 100 + i) };
             if rng.chance(0.5) {
